@@ -16,7 +16,6 @@ import (
 	"fmt"
 	"os"
 	"strings"
-	"sync/atomic"
 	"time"
 )
 
@@ -66,8 +65,10 @@ func (g *Gen) Emit(kind string, params []string, ops []string) {
 	runCase(g.out, g.flushLine, kind, params, ops)
 }
 
-var opStart atomic.Int64 // unix nanos of the op in flight, 0 when idle
 var curOut *bufio.Writer
+
+// abandoned counts worker goroutines left behind by hung operations.
+var abandoned int
 
 func runCase(out *bufio.Writer, flushLine bool, kind string, params []string, ops []string) {
 	mk, ok := kinds[kind]
@@ -80,34 +81,78 @@ func runCase(out *bufio.Writer, flushLine bool, kind string, params []string, op
 		fmt.Fprintf(out, " %s", p)
 	}
 	out.WriteByte('\n')
-	var r Runner
-	res := guard(func() string { r = mk(params); return "" })
-	if res != "" {
-		fmt.Fprintf(out, "new => %s\n", res)
-		ops = nil
-	}
+	// The case runs in its own goroutine so that an operation that never returns (a cycle in a
+	// linked structure, a mutex left locked by a panic) is reported as `hang` and abandoned.
+	reqs := make(chan []string)
+	resps := make(chan string)
+	go func() {
+		var r Runner
+		first := true
+		for toks := range reqs {
+			if first {
+				first = false
+				if res := guard(func() string { r = mk(params); return "" }); res != "" {
+					resps <- "new:" + res
+					return
+				}
+			}
+			resps <- guard(func() string { return r.Do(toks) })
+		}
+	}()
+	timer := time.NewTimer(time.Hour)
+	defer timer.Stop()
 	for _, op := range ops {
 		toks := strings.Fields(op)
 		if len(toks) == 0 {
 			continue
 		}
+		reqs <- toks
+		if !timer.Stop() {
+			select {
+			case <-timer.C:
+			default:
+			}
+		}
+		timer.Reset(hangLimit)
+		var res string
+		select {
+		case res = <-resps:
+		case <-timer.C:
+			res = "hang"
+		}
+		if strings.HasPrefix(res, "new:") {
+			fmt.Fprintf(out, "new => %s\n", res[4:])
+			break
+		}
 		out.WriteString(strings.Join(toks, " "))
 		out.WriteString(" => ")
-		if flushLine {
-			out.Flush()
-		}
-		opStart.Store(time.Now().UnixNano())
-		res := guard(func() string { return r.Do(toks) })
-		opStart.Store(0)
 		out.WriteString(res)
 		out.WriteByte('\n')
 		if flushLine {
 			out.Flush()
 		}
+		if res == "hang" {
+			abandoned++
+			if abandoned > 200 {
+				out.WriteString("END\n")
+				out.Flush()
+				os.Exit(3)
+			}
+			reqs = nil // the worker is stuck: leave it behind
+			break
+		}
+		if res == "panic" {
+			break // the instance is in an undefined state: the case ends here
+		}
+	}
+	if reqs != nil {
+		close(reqs)
 	}
 	out.WriteString("END\n")
 	out.Flush()
 }
+
+var hangLimit = 4 * time.Second
 
 type hangSignal struct{}
 
@@ -125,20 +170,6 @@ func guard(f func() string) (res string) {
 	return f()
 }
 
-func watchdog(limit time.Duration) {
-	for {
-		time.Sleep(200 * time.Millisecond)
-		s := opStart.Load()
-		if s != 0 && time.Since(time.Unix(0, s)) > limit {
-			if curOut != nil {
-				curOut.WriteString("hang\nEND\n")
-				curOut.Flush()
-			}
-			os.Exit(3)
-		}
-	}
-}
-
 func main() {
 	if len(os.Args) < 2 {
 		fmt.Fprintln(os.Stderr, "usage: harness gen <group> [flags] | harness replay | harness groups")
@@ -148,7 +179,6 @@ func main() {
 	curOut = out
 	defer out.Flush()
 	flushLine := os.Getenv("VERIF_FLUSH") == "1"
-	go watchdog(10 * time.Second)
 	switch os.Args[1] {
 	case "groups":
 		for k := range gens {
